@@ -53,7 +53,12 @@ CConj(x) == <<x[1] + x[3], x[2], -x[3], -x[2] - x[4]>>
 CIsReal(x) == CConj(x) = x
 (* sums *)
 CSumSeq(s) == FoldLeft(CAdd, CZero, s)
-CSumSet(S, f(_)) == FoldSet(LAMBDA e, acc : CAdd(f(e), acc), CZero, S)
+CSumSet(S, f(_)) ==
+   LET q == SetToSeq(S) IN FoldLeft(CAdd, CZero, [i \in 1..Len(q) |-> f(q[i])])
+
+(* TLC evaluates LET-bound tables lazily and may re-evaluate them at every use inside a LAMBDA; With(v, Body) evaluates
+   v once (a bound variable of a set constructor is a value) and returns Body(v). Semantically With(v, Body) = Body(v). *)
+With(v, Body(_)) == CHOOSE res \in {Body(y) : y \in {v}} : TRUE
 
 (* integer helpers used by the lattice specifications *)
 Abs(n) == IF n < 0 THEN -n ELSE n
